@@ -29,6 +29,7 @@ func init() {
 			{Name: "deny match allows", File: "route/access_rules.go", Old: "\t\t\t\tlog.Printf(\"[INFO] route rules denied access from %s to %s\",\n\t\t\t\t\tip.String(), t.URL.String())\n\t\t\t\treturn true", New: "\t\t\t\tlog.Printf(\"[INFO] route rules denied access from %s to %s\",\n\t\t\t\t\tip.String(), t.URL.String())\n\t\t\t\treturn false", Expect: "C12.F3"},
 			{Name: "break in XFF loop", File: "route/access_rules.go", Old: "\t\t\tif xip == host {\n\t\t\t\tcontinue\n\t\t\t}", New: "\t\t\tif xip == host {\n\t\t\t\tbreak\n\t\t\t}", Expect: "C12.X1"},
 			{Name: "append target despite rule error", File: "route/route.go", Old: "\t\t\tt.denyAll()\n", New: "", Expect: "C12.F2"},
+			{Name: "basic auth answers from a cache of accepted headers", File: "auth/basic.go", Old: "\treturn b.secrets.Match(user, password)", New: "\tif h := request.Header.Get(\"Authorization\"); h != \"\" && h == b.realm {\n\t\treturn true\n\t}\n\treturn b.secrets.Match(user, password)", Expect: "C12.A1"},
 			{Name: "benign: gate helper", File: "proxy/http_proxy.go", Old: "\tif t.AccessDeniedHTTP(r) {\n\t\thttp.Error(w, \"access denied\", http.StatusForbidden)\n\t\treturn\n\t}", New: "\tdenied := t.AccessDeniedHTTP(r)\n\tif denied {\n\t\thttp.Error(w, \"access denied\", http.StatusForbidden)\n\t\treturn\n\t}", Expect: ""},
 		},
 	})
@@ -38,6 +39,7 @@ func runC12(c *Ctx) {
 	runGateHTTP(c, "C12.G1", true)
 	runC12G2(c)
 	runC12F(c)
+	runC12A1(c)
 }
 
 // lookupResult: v is the result of the dynamic call of a struct field named Lookup.
